@@ -739,6 +739,14 @@ func (it *Interp) callBuiltin(caller *frame, fn *ssa.Builtin, args []Value, site
 			if n == 1 && p != nil {
 				return Str{[]*Term{(*p).(*Term)}}
 			}
+			// &b[i] pattern: recover the backing slice from the SSA operand
+			if sl, off, ok := it.backingOf(caller, site, 0); ok && off+n <= len(sl) {
+				b := make([]*Term, n)
+				for i := 0; i < n; i++ {
+					b[i] = sl[off+i].(*Term)
+				}
+				return Str{b}
+			}
 		}
 		panic(engineErr("unsafe.String of %T len %d", args[0], n))
 	case "Slice":
@@ -758,6 +766,9 @@ func (it *Interp) callBuiltin(caller *frame, fn *ssa.Builtin, args []Value, site
 		case *Value:
 			if p == nil || n == 0 {
 				return []Value(nil)
+			}
+			if sl, off, ok := it.backingOf(caller, site, 0); ok && off+n <= cap(sl) {
+				return sl[off : off+n : off+n]
 			}
 		}
 		panic(engineErr("unsafe.Slice of %T", args[0]))
@@ -822,4 +833,32 @@ func (it *Interp) doRecover(caller *frame) Value {
 		return p.v
 	}
 	return Iface{}
+}
+
+// backingOf recovers (slice, offset) when argument argIdx of the call at site was computed by an
+// IndexAddr in the calling frame (the &b[i] idiom handed to unsafe.String / unsafe.Slice).
+func (it *Interp) backingOf(caller *frame, site ssa.Instruction, argIdx int) ([]Value, int, bool) {
+	call, ok := site.(*ssa.Call)
+	if !ok || caller == nil || argIdx >= len(call.Call.Args) {
+		return nil, 0, false
+	}
+	ia, ok := call.Call.Args[argIdx].(*ssa.IndexAddr)
+	if !ok {
+		return nil, 0, false
+	}
+	off, ok := concInt(caller.get(ia.Index))
+	if !ok {
+		return nil, 0, false
+	}
+	switch x := caller.get(ia.X).(type) {
+	case []Value:
+		return x[:cap(x)], int(off), true
+	case *Value:
+		if x != nil {
+			if a, ok := (*x).(Array); ok {
+				return a, int(off), true
+			}
+		}
+	}
+	return nil, 0, false
 }
